@@ -1,9 +1,9 @@
 package verifsim
 
 import (
-	"runtime/debug"
 	"fmt"
 	"hash/fnv"
+	"runtime/debug"
 	"sort"
 )
 
